@@ -303,8 +303,8 @@ def run_shard(spec, rec):
             if i % 9 == 5 and "_kinds" not in cfg and float(cfg["sampling_rate"]).is_integer() and cfg["name"] == "tri":
                 # the sampling rate as a single-precision NumPy number (read from a float32 header field): the representations of one
                 # bank still agree with one another, whatever precision the bank works in.  (Triangular banks only: an Fbank with a float32
-                # rate and the default high_hz takes the square root of a rounding-negative number at its top vertex - DESIGN 8.3, D37 -
-                # which is a matter of the filter's values, C05, not of the agreement between representations.)
+                # rate and the default high_hz takes the square root of a rounding-negative number at its top vertex - D37 in DESIGN 8.4,
+                # twelfth round; the triangular bank's form of D37, an internal assertion that trips by one bin, is a listed known finding.)
                 cfg["_kinds"] = {"sampling_rate": "np.float32"}
                 rec.count("banks_with_a_single_precision_sampling_rate")
             run_case({"idx": i, "seed": spec["seed"], "cfg": cfg, "threshold": [None, None, 5e-5, None, 2e-3, None][i % 6]}, rec, mon)
@@ -343,4 +343,10 @@ def finish(rec):
 
 
 def classify(w):
+    # D37: a bank whose sampling rate is a single-precision NumPy number does its bin arithmetic in single precision, and the
+    # triangular bank's internal consistency assertion (support computed one way, response another) can then trip by one bin
+    cfg = w.get("cfg") or {}
+    if w.get("check") == "raise" and "AssertionError" in str(w.get("what", "")) and w.get("cls") == "TriangularOverlappingFilterBank" \
+            and (cfg.get("_kinds") or {}).get("sampling_rate") == "np.float32":
+        return "single-precision-rate-trips-bank-assertion"
     return None
